@@ -8,3 +8,7 @@ pub use engine::report::*;
 pub use engine::smt::*;
 pub mod c0203;
 pub mod spline;
+pub mod validate;
+pub mod api;
+pub mod c01;
+pub mod c04;
